@@ -615,7 +615,12 @@ impl Display for Literal {
                 }
             },
             Literal::Range(min, max, num_ty) => {
-                write!(f, "{min}{num_ty}..{max}{num_ty}")
+                // (an end one past the largest number of the type cannot be written with the suffix)
+                if num_ty.max().is_some_and(|num_max| *max > num_max) {
+                    write!(f, "{min}{num_ty}..{max}")
+                } else {
+                    write!(f, "{min}{num_ty}..{max}{num_ty}")
+                }
             }
         }
     }
